@@ -8,6 +8,6 @@ git apply "$P" || { echo "patch does not apply"; exit 2; }
 echo "== baseline tests with the patch:"; cargo test --workspace --offline 2>&1 | grep -E "^test result" | head -3
 for id in "$@"; do
   echo "== check $id"
-  (cd /verif && ./check "$id" --tier quick 2>&1 | cut -c1-420 | head -6; echo "exit=$?")
+  (cd /verif && VERIF_NO_EVIDENCE=1 ./check "$id" --tier quick 2>&1 | cut -c1-420 | head -6; echo "exit=$?")
 done
 cd /repo && git checkout -- . && git status --short
